@@ -315,9 +315,9 @@ impl Bitvector {
     #[verifier::external_body]
     pub fn sign_bit(&self) -> (r: Bit) requires self.wf() ensures (r is Set) == self.sign() { unimplemented!() }
     #[verifier::external_body]
-    pub fn count_ones(&self) -> (r: usize) requires self.wf() ensures r as nat == popcount(self.u@), r as nat <= self.w@ { unimplemented!() }
+    pub fn count_ones(&self) -> (r: usize) requires self.wf() ensures r as nat == popcount(self.u@) { unimplemented!() }
     #[verifier::external_body]
-    pub fn leading_zeros(&self) -> (r: usize) requires self.wf() ensures r as nat == self.w@ - bitlen(self.u@), bitlen(self.u@) <= self.w@ { unimplemented!() }
+    pub fn leading_zeros(&self) -> (r: usize) requires self.wf() ensures r as int == self.w@ - bitlen(self.u@) { unimplemented!() }
     #[verifier::external_body]
     pub fn trailing_zeros(&self) -> (r: usize) requires self.wf() ensures r as nat == (if self.u@ == 0 { self.w@ } else { tz(self.u@) }) { unimplemented!() }
 
@@ -363,9 +363,9 @@ pub open spec fn bv_add(a: Bitvector, b: Bitvector) -> Bitvector { bv(a.w@, trun
 pub open spec fn bv_sub(a: Bitvector, b: Bitvector) -> Bitvector { bv(a.w@, trunc(a.w@, a.u@ - b.u@)) }
 pub open spec fn bv_mul(a: Bitvector, b: Bitvector) -> Bitvector { bv(a.w@, trunc(a.w@, (a.u@ * b.u@) as int)) }
 pub open spec fn bv_neg(a: Bitvector) -> Bitvector { bv(a.w@, trunc(a.w@, -(a.u@ as int))) }
-pub open spec fn bv_and(a: Bitvector, b: Bitvector) -> Bitvector { bv(a.w@, bits_and(a.w@, a.u@, b.u@)) }
-pub open spec fn bv_or(a: Bitvector, b: Bitvector) -> Bitvector { bv(a.w@, bits_or(a.w@, a.u@, b.u@)) }
-pub open spec fn bv_xor(a: Bitvector, b: Bitvector) -> Bitvector { bv(a.w@, bits_xor(a.w@, a.u@, b.u@)) }
+pub open spec fn bv_and(a: Bitvector, b: Bitvector) -> Bitvector { bv(a.w@, bits_and(a.u@, b.u@)) }
+pub open spec fn bv_or(a: Bitvector, b: Bitvector) -> Bitvector { bv(a.w@, bits_or(a.u@, b.u@)) }
+pub open spec fn bv_xor(a: Bitvector, b: Bitvector) -> Bitvector { bv(a.w@, bits_xor(a.u@, b.u@)) }
 
 // PartialEq: apint compares width and digits; never panics.
 impl PartialEq for Bitvector {
